@@ -11,6 +11,8 @@ package filecachepb
 // codec (profiles, devices, access settings, blocking modes) is not under
 // contract.
 
+//@ import internal github.com/AdguardTeam/AdGuardDNS/internal/profiledb/internal
+//@ import agd github.com/AdguardTeam/AdGuardDNS/internal/agd
 //@ import filter github.com/AdguardTeam/AdGuardDNS/internal/filter
 //@ import agdtime github.com/AdguardTeam/AdGuardDNS/internal/agdtime
 
@@ -26,7 +28,7 @@ package filecachepb
 //@ func dayIntervalToProtobuf
 //@   property C14
 //@   modifies heap
-//@   preserves filter.DayInterval.*, filter.ConfigSchedule.*, DayInterval.*, allelems(*filter.DayInterval), filter.ConfigClient.*, filter.ConfigCustom.*, filter.ConfigParental.*, filter.ConfigRuleList.*, filter.ConfigSafeBrowsing.*, allelems(filter.RuleText), allelems(filter.BlockedServiceID), allelems(filter.ID), agd.Profile.*, allelems(*agd.Profile), FilterConfig.*, FilterConfig_Custom.*, FilterConfig_Parental.*, FilterConfig_RuleList.*, FilterConfig_SafeBrowsing.*, Profile.*, allelems(*Profile)
+//@   preserves internal.FileCache.*, agd.Device.*, agd.AuthSettings.*, allelems(*agd.Device), filter.DayInterval.*, filter.ConfigSchedule.*, DayInterval.*, allelems(*filter.DayInterval), filter.ConfigClient.*, filter.ConfigCustom.*, filter.ConfigParental.*, filter.ConfigRuleList.*, filter.ConfigSafeBrowsing.*, allelems(filter.RuleText), allelems(filter.BlockedServiceID), allelems(filter.ID), agd.Profile.*, allelems(*agd.Profile), FilterConfig.*, FilterConfig_Custom.*, FilterConfig_Parental.*, FilterConfig_RuleList.*, FilterConfig_SafeBrowsing.*, Profile.*, allelems(*Profile)
 //@   ensures the-interval-as-it-is: sameDay(ivl, i) && (ivl != nil ==> fresh(ivl))
 
 //@ func (*DayInterval).toInternal
@@ -40,7 +42,7 @@ package filecachepb
 //@   property C14
 //@   requires c != nil ==> c.Week != nil && c.TimeZone != nil
 //@   modifies heap
-//@   preserves filter.DayInterval.*, filter.ConfigSchedule.*, allelems(*filter.DayInterval), filter.ConfigClient.*, filter.ConfigCustom.*, filter.ConfigParental.*, filter.ConfigRuleList.*, filter.ConfigSafeBrowsing.*, allelems(filter.RuleText), allelems(filter.BlockedServiceID), allelems(filter.ID), agd.Profile.*, allelems(*agd.Profile), FilterConfig.*, FilterConfig_Custom.*, FilterConfig_Parental.*, FilterConfig_RuleList.*, FilterConfig_SafeBrowsing.*, Profile.*, allelems(*Profile)
+//@   preserves internal.FileCache.*, agd.Device.*, agd.AuthSettings.*, allelems(*agd.Device), filter.DayInterval.*, filter.ConfigSchedule.*, allelems(*filter.DayInterval), filter.ConfigClient.*, filter.ConfigCustom.*, filter.ConfigParental.*, filter.ConfigRuleList.*, filter.ConfigSafeBrowsing.*, allelems(filter.RuleText), allelems(filter.BlockedServiceID), allelems(filter.ID), agd.Profile.*, allelems(*agd.Profile), FilterConfig.*, FilterConfig_Custom.*, FilterConfig_Parental.*, FilterConfig_RuleList.*, FilterConfig_SafeBrowsing.*, Profile.*, allelems(*Profile)
 //@   ensures c == nil ==> conf == nil
 //@   ensures every-day-stores-its-own-interval: c != nil ==> conf != nil && conf.Week != nil &&
 //@             sameDay(conf.Week.Sun, c.Week[0]) && sameDay(conf.Week.Mon, c.Week[1]) && sameDay(conf.Week.Tue, c.Week[2]) && sameDay(conf.Week.Wed, c.Week[3]) &&
@@ -76,7 +78,7 @@ package filecachepb
 //@   property C14
 //@   requires validNets(nets)
 //@   modifies heap, ipBytes
-//@   preserves access.ProfileConfig.*, allelems(netip.Prefix), allelems(geoip.ASN), allelems(string), allelems(uint32), CidrRange.*, allelems(*CidrRange), Access.*, agd.Profile.*, allelems(*agd.Profile), Profile.*, allelems(*Profile), filter.ConfigClient.*, filter.ConfigCustom.*, filter.ConfigParental.*, filter.ConfigRuleList.*, filter.ConfigSafeBrowsing.*, filter.ConfigSchedule.*
+//@   preserves internal.FileCache.*, agd.Device.*, agd.AuthSettings.*, allelems(*agd.Device), access.ProfileConfig.*, allelems(netip.Prefix), allelems(geoip.ASN), allelems(string), allelems(uint32), CidrRange.*, allelems(*CidrRange), Access.*, agd.Profile.*, allelems(*agd.Profile), Profile.*, allelems(*Profile), filter.ConfigClient.*, filter.ConfigCustom.*, filter.ConfigParental.*, filter.ConfigRuleList.*, filter.ConfigSafeBrowsing.*, filter.ConfigSchedule.*
 //@   ensures earlier-ranges-keep-their-addresses: forall k int :: old(allocated(k)) ==> ipBytes[k] == old(ipBytes[k])
 //@   ensures every-network-in-order: len(cidrs) == len(nets) && (forall i int :: 0 <= i && i < len(nets) ==> storedNet(cidrs[i], nets[i]))
 //@   ensures len(nets) > 0 ==> fresh(cidrs)
@@ -105,7 +107,7 @@ package filecachepb
 //@   property C14
 //@   requires c != nil ==> validNets(c.AllowedNets) && validNets(c.BlockedNets)
 //@   modifies heap, ipBytes
-//@   preserves access.ProfileConfig.*, allelems(netip.Prefix), allelems(geoip.ASN), allelems(string), agd.Profile.*, allelems(*agd.Profile), Profile.*, allelems(*Profile), filter.ConfigClient.*, filter.ConfigCustom.*, filter.ConfigParental.*, filter.ConfigRuleList.*, filter.ConfigSafeBrowsing.*, filter.ConfigSchedule.*
+//@   preserves internal.FileCache.*, agd.Device.*, agd.AuthSettings.*, allelems(*agd.Device), access.ProfileConfig.*, allelems(netip.Prefix), allelems(geoip.ASN), allelems(string), agd.Profile.*, allelems(*agd.Profile), Profile.*, allelems(*Profile), filter.ConfigClient.*, filter.ConfigCustom.*, filter.ConfigParental.*, filter.ConfigRuleList.*, filter.ConfigSafeBrowsing.*, filter.ConfigSchedule.*
 //@   ensures no-settings-no-message: c == nil ==> ac == nil
 //@   ensures settings-are-always-written: c != nil ==> ac != nil && fresh(ac)
 //@   ensures every-asn-in-order: c != nil ==> len(ac.AllowlistAsn) == len(c.AllowedASN) && len(ac.BlocklistAsn) == len(c.BlockedASN) &&
@@ -145,7 +147,6 @@ package filecachepb
 // password): no password hash stored means "any password", as it does when the
 // settings come from the backend.
 //@ import agdpasswd github.com/AdguardTeam/AdGuardDNS/internal/agdpasswd
-//@ import agd github.com/AdguardTeam/AdGuardDNS/internal/agd
 //@ func dohPasswordToInternal
 //@   property C14 C03
 //@   requires isptr(pbp, AuthenticationSettings_PasswordHashBcrypt) ==> asptr(pbp, AuthenticationSettings_PasswordHashBcrypt) != nil
@@ -214,7 +215,7 @@ package filecachepb
 //@   property C14
 //@   requires forall i int :: 0 <= i && i < len(devices) ==> devices[i] != nil && goodAuth(devices[i].Auth)
 //@   modifies heap, ipBytes
-//@   preserves agd.Device.*, agd.AuthSettings.*, allelems(*agd.Device), allelems(netip.Addr)
+//@   preserves agd.Device.*, agd.AuthSettings.*, allelems(*agd.Device), allelems(netip.Addr), internal.FileCache.*
 //@   ensures every-device-in-order-every-field-from-its-own: len(pbDevices) == len(devices) && (forall i int :: 0 <= i && i < len(devices) ==>
 //@             pbDevices[i] != nil && pbDevices[i].DeviceId == devices[i].ID && pbDevices[i].DeviceName == devices[i].Name && pbDevices[i].HumanIdLower == devices[i].HumanIDLower &&
 //@             pbDevices[i].FilteringEnabled == devices[i].FilteringEnabled && len(pbDevices[i].DedicatedIps) == len(devices[i].DedicatedIPs) &&
@@ -239,7 +240,7 @@ package filecachepb
 //@   property C14
 //@   requires fcWellFormed(c)
 //@   modifies heap, tsTime
-//@   preserves filter.ConfigClient.*, filter.ConfigCustom.*, filter.ConfigParental.*, filter.ConfigRuleList.*, filter.ConfigSafeBrowsing.*, filter.ConfigSchedule.*, filter.DayInterval.*,
+//@   preserves internal.FileCache.*, agd.Device.*, agd.AuthSettings.*, allelems(*agd.Device), filter.ConfigClient.*, filter.ConfigCustom.*, filter.ConfigParental.*, filter.ConfigRuleList.*, filter.ConfigSafeBrowsing.*, filter.ConfigSchedule.*, filter.DayInterval.*,
 //@             allelems(*filter.DayInterval), allelems(filter.RuleText), allelems(filter.BlockedServiceID), allelems(filter.ID), agd.Profile.*, allelems(*agd.Profile), Profile.*, allelems(*Profile)
 //@   ensures every-switch-from-its-own: sameFlags(fc, c) && fresh(fc) && tsTime[fc.Custom.UpdateTime] == c.Custom.UpdateTime
 
@@ -285,18 +286,18 @@ package filecachepb
 //@   modifies nothing
 //@ func blockingModeToProtobuf
 //@   modifies heap, ipBytes
-//@   preserves agd.Profile.*, allelems(*agd.Profile), Profile.*, allelems(*Profile), filter.ConfigClient.*, filter.ConfigCustom.*, filter.ConfigParental.*, filter.ConfigRuleList.*, filter.ConfigSafeBrowsing.*, filter.ConfigSchedule.*,
+//@   preserves internal.FileCache.*, agd.Device.*, agd.AuthSettings.*, allelems(*agd.Device), agd.Profile.*, allelems(*agd.Profile), Profile.*, allelems(*Profile), filter.ConfigClient.*, filter.ConfigCustom.*, filter.ConfigParental.*, filter.ConfigRuleList.*, filter.ConfigSafeBrowsing.*, filter.ConfigSchedule.*,
 //@             FilterConfig.*, FilterConfig_Custom.*, FilterConfig_Parental.*, FilterConfig_RuleList.*, FilterConfig_SafeBrowsing.*, Access.*, allelems(agd.DeviceID)
 //@ func ratelimiterToProtobuf
 //@   modifies heap, ipBytes
-//@   preserves agd.Profile.*, allelems(*agd.Profile), Profile.*, allelems(*Profile), filter.ConfigClient.*, filter.ConfigCustom.*, filter.ConfigParental.*, filter.ConfigRuleList.*, filter.ConfigSafeBrowsing.*, filter.ConfigSchedule.*,
+//@   preserves internal.FileCache.*, agd.Device.*, agd.AuthSettings.*, allelems(*agd.Device), agd.Profile.*, allelems(*agd.Profile), Profile.*, allelems(*Profile), filter.ConfigClient.*, filter.ConfigCustom.*, filter.ConfigParental.*, filter.ConfigRuleList.*, filter.ConfigSafeBrowsing.*, filter.ConfigSchedule.*,
 //@             FilterConfig.*, FilterConfig_Custom.*, FilterConfig_Parental.*, FilterConfig_RuleList.*, FilterConfig_SafeBrowsing.*, Access.*, allelems(agd.DeviceID)
 
 //@ func profilesToProtobuf
 //@   property C14
 //@   requires forall i int :: 0 <= i && i < len(profiles) ==> profiles[i] != nil && fcWellFormed(profiles[i].FilterConfig) && ref(profiles[i].Access) != 0 && ref(profiles[i].Ratelimiter) != 0
 //@   modifies heap, ipBytes, tsTime, durVal
-//@   preserves agd.Profile.*, allelems(*agd.Profile)
+//@   preserves internal.FileCache.*, agd.Device.*, agd.AuthSettings.*, allelems(*agd.Device), agd.Profile.*, allelems(*agd.Profile)
 //@   ensures every-profile-in-order-every-field-from-its-own: len(pbProfiles) == len(profiles) && (forall i int :: 0 <= i && i < len(profiles) ==>
 //@             pbProfiles[i] != nil && pbProfiles[i].ProfileId == profiles[i].ID && len(pbProfiles[i].DeviceIds) == len(profiles[i].DeviceIDs) &&
 //@             durVal[pbProfiles[i].FilteredResponseTtl] == profiles[i].FilteredResponseTTL &&
@@ -312,3 +313,36 @@ package filecachepb
 //@   loop 1 invariant forall j int :: 0 <= j && j <= #i ==> allocated(pbProfiles[j].FilteredResponseTtl) && durVal[pbProfiles[j].FilteredResponseTtl] == profiles[j].FilteredResponseTTL
 //@   loop 1 invariant forall j int :: 0 <= j && j <= #i ==> pbProfiles[j].AutoDevicesEnabled == profiles[j].AutoDevicesEnabled && pbProfiles[j].BlockChromePrefetch == profiles[j].BlockChromePrefetch && pbProfiles[j].BlockFirefoxCanary == profiles[j].BlockFirefoxCanary && pbProfiles[j].BlockPrivateRelay == profiles[j].BlockPrivateRelay
 //@   loop 1 invariant forall j int :: 0 <= j && j <= #i ==> pbProfiles[j].Deleted == profiles[j].Deleted && pbProfiles[j].FilteringEnabled == profiles[j].FilteringEnabled && pbProfiles[j].IpLogEnabled == profiles[j].IPLogEnabled && pbProfiles[j].QueryLogEnabled == profiles[j].QueryLogEnabled
+
+// ---------------------------------------------------------------------------
+// C14: the whole cache.  toProtobuf carries every part of the cache over; Store
+// encodes exactly that and replaces the cache file through one atomic
+// write-and-rename - never by writing into the file itself, so a reader (or a
+// restart after a crash at any point) sees the previous file or the new one,
+// complete.
+//@ import renameio github.com/google/renameio/v2
+//@ import proto google.golang.org/protobuf/proto
+//@ import os os
+//@ pred cacheWellFormed(c *internal.FileCache) = c != nil &&
+//@      (forall i int :: 0 <= i && i < len(c.Profiles) ==> c.Profiles[i] != nil && fcWellFormed(c.Profiles[i].FilterConfig) && ref(c.Profiles[i].Access) != 0 && ref(c.Profiles[i].Ratelimiter) != 0) &&
+//@      (forall i int :: 0 <= i && i < len(c.Devices) ==> c.Devices[i] != nil && goodAuth(c.Devices[i].Auth))
+// (a storage's path and logger are set once, by New)
+//@ immutable Storage.path, Storage.logger
+//@ func toProtobuf
+//@   property C14
+//@   requires cacheWellFormed(c)
+//@   modifies heap, ipBytes, tsTime, durVal
+//@   preserves internal.FileCache.*, agd.Device.*, agd.AuthSettings.*, allelems(*agd.Device)
+//@   atcall New assert the-sync-time-is-converted-from-the-caches-own: arg0 == c.SyncTime
+//@   ensures every-part-of-the-cache-is-carried-over: pbFileCache != nil && fresh(pbFileCache) && pbFileCache.Version == c.Version && pbFileCache.SyncTime != nil &&
+//@             len(pbFileCache.Profiles) == len(c.Profiles) && len(pbFileCache.Devices) == len(c.Devices)
+
+//@ func (*Storage).Store
+//@   property C14
+//@   requires s != nil && s.logger != nil && cacheWellFormed(c)
+//@   modifies heap, ipBytes, tsTime, durVal, fileBytes, atomicWrites, tornWrites
+//@   atcall WriteFile assert what-is-written-is-the-encoding-of-the-converted-cache: arg0 == s.path && strof(arg1) == pbWire(ref(fc))
+//@   ensures the-cache-file-is-never-written-in-place: tornWrites == old(tornWrites)
+//@   ensures the-file-is-replaced-by-one-atomic-write: err == nil ==> atomicWrites == old(atomicWrites) + 1
+//@   ensures a-failed-store-leaves-the-previous-file: err != nil ==> fileBytes[old(s.path)] == old(fileBytes[s.path])
+//@   ensures no-other-file-is-touched: forall p string :: p != old(s.path) ==> fileBytes[p] == old(fileBytes[p])
